@@ -40,6 +40,9 @@ SOURCES = {
 }
 
 
+_COUNTER = [0]
+
+
 def gate_sig(qc):
     return [(type(g).__name__, [int(x) for x in w], (round(float(p), 9) if isinstance(p, (int, float)) else p)) for g, w, p in qc.gates]
 
@@ -96,6 +99,30 @@ def exec_op(op, objs):
     if k == "compile":
         _, sid, to_compile, prof, unc = op
         return qlassf(SOURCES[sid], to_compile=to_compile, bool_optimizer=profile(prof), uncompute=unc)
+    if k == "compile_callable":
+        # the same source as a real Python callable (module file on disk, inspect.getsource) / through the decorator
+        import importlib.util
+        import os
+        import re
+        import tempfile
+
+        _, sid, prof, deco = op
+        src = SOURCES[sid]
+        name = re.match(r"def (\w+)\(", src).group(1)
+        hdr = "from qlasskit import qlassf, qlassfa, Qint, Qint2, Qint3, Qint4, Qint8, Qlist, Qmatrix, Parameter\nfrom typing import Tuple\n\n"
+        body = ("@qlassf\n" if deco else "") + src
+        d = os.environ.get("VQ_SCRATCH") or tempfile.gettempdir()
+        _COUNTER[0] += 1
+        path = os.path.join(d, f"c10mod_{os.getpid()}_{_COUNTER[0]}.py")
+        with open(path, "w") as f:
+            f.write(hdr + body)
+        spec = importlib.util.spec_from_file_location(f"c10mod_{os.getpid()}_{_COUNTER[0]}", path)
+        mod = importlib.util.module_from_spec(spec)
+        spec.loader.exec_module(mod)
+        obj = getattr(mod, name)
+        if deco:
+            return obj
+        return qlassf(obj, to_compile=True, bool_optimizer=profile(prof))
     if k == "defs":
         _, sid, callee_idx = op
         return qlassf(SOURCES[sid], defs=[objs[callee_idx]], to_compile=True)
